@@ -141,7 +141,11 @@ def call(S, ev, mag: int = 0):
     import bind
     ttb = bind.ttb
     try:
+        import c05
+        before = c05.snapshot(S)
         r = apply(S, ev, mag)
+        if c05.snapshot(S) != before:
+            return {"kind": "operand-changed"}
         if isinstance(r, (ttb.tensor, ttb.sptensor)):
             return bind.alpha(r, conv=bind.rat)
         return {"kind": "other", "type": type(r).__name__}
